@@ -13,7 +13,7 @@ HOOK_REQUIRED = False
 
 MODEL = {"quick": [dict(MaxN=3, MaxV=2, MaxK=2, MaxD=1, Mws="{8}", Mwl="{4, 8}", Mid="{10, 300000}")],
          "thorough": [dict(MaxN=4, MaxV=2, MaxK=2, MaxD=1, Mws="{8, 12}", Mwl="{2, 4, 8}", Mid="{10, 300000}"),
-                      dict(MaxN=4, MaxV=1, MaxK=3, MaxD=2, Mws="{8}", Mwl="{4}", Mid="{10}")]}
+                      dict(MaxN=4, MaxV=1, MaxK=2, MaxD=2, Mws="{8}", Mwl="{4, 8}", Mid="{10}")]}
 INVS = ["InvWellFormed", "InvDepth", "InvClauses", "InvFitReach", "InvConvAgree", "InvLabels", "InvDecNonNeg"]
 ACTIONS = ["Grow", "Prune"]
 LN_INVS = ["LnOne6", "LnStep6", "LnProduct6", "LnMono6", "LnElem6", "LnAnchors6"]
